@@ -1467,10 +1467,22 @@ package crypto
 
 // ---- Joint-Feldman End (C10): typestate part. The key summation helper is an ASSUMED contract (its memory safety
 // needs a counting argument: the number of non-disqualified instances equals `qualified`); everything else is proved.
-//@ func (*JointFeldmanState).sumUpQualifiedKeys trusted
+// getQualifiedKeys (the filter over the non-disqualified instances) is the ASSUMED part: that it returns `qualified` keys of
+// each kind needs the counting argument; sumUpQualifiedKeys itself is verified against it: the three sums are the C sums of what
+// the filter returned, and the public share of EVERY participant is summed (loop exit clause).
+//@ func (*JointFeldmanState).getQualifiedKeys trusted
 //@ requires s != nil
 //@ assigns nothing
+//@ ensures len(result0) == qualified && len(result1) == qualified && len(result2) == s.size && fresh(result0) && fresh(result1) && fresh(result2) && forall(k, 0, s.size, len(result2[k]) == qualified && fresh(result2[k]))
+
+//@ func (*JointFeldmanState).sumUpQualifiedKeys mode int props C07 C09
+//@ requires s != nil && s.dkgCommon != nil && 2 <= s.size && s.size <= 254 && 1 <= qualified && qualified <= 254
+//@ assigns nothing
 //@ ensures result0 != nil && fresh(result0) && result1 != nil && fresh(result1) && len(result2) == s.size && fresh(result2)
+//@ loop 1 invariant [range] 0 <= i && i <= s.size && len(jointy) == s.size && fresh(jointy) && len(qualifiedy) == s.size && unchanged(s.dkgCommon) && unchanged(s.size)
+//@ loop 1 invariant [filtered-lists-kept] forall(k, 0, s.size, len(qualifiedy[k]) == qualified && obj(qualifiedy[k]) != obj(jointy))
+//@ loop 1 invariant [summed-so-far] forall(k, 0, i, jointy[k] == e2Affine(e2sum(qualifiedy[k], qualified)))
+//@ loop 1 exit [every-participant's-public-share-is-summed] i == s.size
 
 //@ pred noUnanswered(q) = forall(k, 0, 256, has(q.complaints, k) ==> !(q.complaints[k].received && !q.complaints[k].answerReceived))
 //@ pred jfKept(s) = unchanged(s.dkgCommon) && unchanged(s.fvss) && unchanged(s.size) && unchanged(s.threshold) && unchanged(s.myIndex) && unchanged(s.processor) && unchanged(s.running) && forall(j, 0, s.size, unchanged(s.fvss[j].complaints) && unchanged(s.fvss[j].sharesTimeout) && unchanged(s.fvss[j].complaintsTimeout) && unchanged(s.fvss[j].feldmanVSSstate) && (old(s.fvss[j].disqualified) ==> s.fvss[j].disqualified))
